@@ -1,6 +1,6 @@
 """Property -> rules mapping."""
 from .core import Ctx
-from .rules import k1, reclaim
+from .rules import k1, reclaim, schemes
 
 ALL_FILES = [".hpp"]
 RECL = ["reclamation/"]
@@ -41,11 +41,29 @@ def C03(ctx):
             "sufficiency of the annotated happens-before edges (absence of races in all executions)")
 
 
+def scheme_rules(ctx):
+    schemes.hazard_pointer_rules(ctx)
+    schemes.hazard_eras_rules(ctx)
+    schemes.thread_block_list_rules(ctx)
+
+
 def C01(ctx):
+    ctx.only = ("K1.", "K4.reclaim-after-unlink", "HP.protocol", "HP.active-gather", "HP.delete-licensed", "HP.validate-after-protect",
+                "HE.protocol", "HE.active-gather", "HE.delete-licensed", "HE.era-after-load", "HE.exception-safety", "HE.retire")
     k1_rules(ctx, "C01")
     reclaim.reclaim_after_unlink(ctx, [".hpp"])
     ctx.floor("K4.reclaim-after-unlink", 20)
+    scheme_rules(ctx)
     return ("Decides structural necessary conditions of safe reclamation.", "that the schemes are correct under all interleavings")
+
+
+def C02(ctx):
+    ctx.only = ("K1.", "K4.reclaim-after-unlink", "HP.retire", "HP.thread-exit", "HP.delete-licensed", "HP.protocol",
+                "HE.retire", "HE.thread-exit", "HE.delete-licensed", "HE.protocol")
+    k1_rules(ctx, "C02")
+    reclaim.reclaim_after_unlink(ctx, [".hpp"])
+    scheme_rules(ctx)
+    return ("Decides structural necessary conditions of exactly-once destruction.", "eventual reclamation; exactly-once under racing adoption")
 
 
 def C10(ctx):
@@ -55,7 +73,21 @@ def C10(ctx):
     return ("Decides structural necessary conditions of the vyukov_hash_map protocol.", "linearizability")
 
 
-PROPS = {"C03": C03, "C01": C01, "C10": C10}
+def C17(ctx):
+    ctx.only = ("K1.", "TBL.", "HP.thread-exit", "HP.block-init", "HP.active-gather", "HE.thread-exit", "HE.block-init", "HE.active-gather")
+    k1_rules(ctx, "C17")
+    scheme_rules(ctx)
+    return ("Decides structural necessary conditions of control-block recycling.", "boundedness of bookkeeping as a quantity")
+
+
+def C18(ctx):
+    ctx.only = ("K1.", "HP.slots", "HE.slots", "HE.exception-safety", "HP.block-init", "HE.block-init")
+    k1_rules(ctx, "C18")
+    scheme_rules(ctx)
+    return ("Decides structural necessary conditions of hazard slot accounting.", "'at least K' as a count over all operation sequences")
+
+
+PROPS = {"C01": C01, "C02": C02, "C03": C03, "C10": C10, "C17": C17, "C18": C18}
 
 
 def run(prop, tier):
